@@ -7,7 +7,10 @@ from .. import cfggen, cfgrun, cfgstream, core, schemafam as F
 RULE = ("texts of the C01 corpus (valid and invalid) and texts for the shipped logger and basic-mapping components; each "
         "item tree rendered twice: canonically and under a random composition of the listed rewrites (indentation, "
         "trailing whitespace incl. exotic Unicode spaces, blank/comment lines, letter case of types/names/define names/"
-        "references/keys, <t/> vs <t></t>, reordering lines of different keys); value tree or rejection must agree. "
+        "references/keys, <t/> vs <t></t>, reordering lines of different keys); value tree or rejection must agree. Texts also give "
+        "arbitrary ('+') keys named like a section of the same container (key line before / between / after the section), and a "
+        "second schema stream has section types that override the inherited key type with inherited key names that are not "
+        "fixed points of the new one (case-sensitive base with mixed-case keys under a case-insensitive derived type and vice versa). "
         "non-trivial = at least two physical lines; distinct by (schema, canonical text, rewritten text)")
 
 WS = [" ", "\t", "  ", "\x0c", " ", " ", "\x0b", ""]
@@ -99,6 +102,90 @@ def add_define_items(rng, items):
     return items
 
 
+def odd_spelled_keys(elab, items):
+    """the key lines of the item tree that address a fixed key which the section type lists in a spelling its own key type
+    does not produce (inherited from a base type with another key type): [type, key as listed, key as written]"""
+    out = []
+    for cont, tyname in cfggen._containers(items, None, []):
+        children, kt = cfggen._children_of(elab, tyname)
+        if children is None or kt == "identifier":
+            continue
+        odd = {info[1].lower(): info[1] for _, info in children if info[0] == "key" and info[1] != "+" and info[1].lower() != info[1]}
+        for it in cont:
+            if it[0] == "kv" and it[1].lower() in odd:
+                out.append([tyname, odd[it[1].lower()], it[1]])
+    return out
+
+
+def _pair_outcome(real, elab, items, overrides, seed):
+    """canonical and re-laid-out rendering (layout drawn from the given seed) of an item tree on the real loader (fresh
+    loaders, from streams); None when they agree, else the two texts and outcomes"""
+    import random
+    r = random.Random(seed)
+    la = canon_lines(items)
+    lb = (relayout(r, elab, [it for it in items if it[0] == "define"], None)
+          + relayout(r, elab, [it for it in items if it[0] != "define"], None))
+    oa, va, _ = cfgrun.real_load(real, "\n".join(la) + "\n", overrides=overrides, reuse=False)
+    ob, vb, _ = cfgrun.real_load(real, "\n".join(lb) + "\n", overrides=overrides, reuse=False)
+    if "internal" in (oa[0], ob[0]) or "dtexc" in (oa[0], ob[0]):
+        return None
+    if oa[0] == ob[0] and (oa[0] != "ok" or cfgrun.describe(va) == cfgrun.describe(vb)):
+        return None
+    return {"lines": la, "rewritten": lb, "canonical_outcome": oa, "rewritten_outcome": ob,
+            "canonical_value": cfgrun.describe(va) if oa[0] == "ok" else None,
+            "rewritten_value": cfgrun.describe(vb) if ob[0] == "ok" else None}
+
+
+def shrink_pair(real, elab, items, overrides, seeds=12, budget=4000):
+    """greedy reduction of the item tree of a violating pair: an item (at any depth) is dropped when, for some layout seed,
+    the canonical and the re-laid-out rendering of the smaller tree still differ in outcome.  None when the difference does
+    not reproduce from the item tree alone (it then depends on how the text was delivered; the original pair is reported)"""
+    order = list(range(seeds))
+    spent = [0]
+
+    def differs(its):
+        for i, sd in enumerate(order):
+            spent[0] += 1
+            r = _pair_outcome(real, elab, its, overrides, sd)
+            if r is not None:
+                order.insert(0, order.pop(i))
+                return r
+        return None
+
+    def paths(its, pre=()):
+        for i, it in enumerate(its):
+            yield pre + (i,)
+            if it[0] == "sect":
+                yield from paths(it[3], pre + (i,))
+
+    def without(its, path):
+        its = copy.deepcopy(its)
+        cont = its
+        for i in path[:-1]:
+            cont = cont[i][3]
+        del cont[path[-1]]
+        return its
+
+    best = differs(items)
+    if best is None:
+        return None
+    progress = True
+    while progress and spent[0] < budget:
+        progress = False
+        for path in sorted(paths(items), key=lambda q: (len(q), q)):
+            try:
+                cand = without(items, path)
+            except IndexError:
+                continue
+            r = differs(cand)
+            if r is not None:
+                items, best, progress = cand, r, True
+                break
+            if spent[0] >= budget:
+                break
+    return best
+
+
 def canon_lines(items):
     out = []
     for it in items:
@@ -126,10 +213,24 @@ def run(ctx):
     n_s, n_t = (800, 40) if ctx.thorough() else (80, 20)
     rng = ctx.rng
     base = cfgstream.gen_cases(ctx, n_s, n_t, nfaults=(0, 0, 1, 2))
+    # schemas with a section type that OVERRIDES the key type it inherits while the inherited key names are not fixed points
+    # of the new key type (registered in the base's spelling: reachable in one spelling only, in none, or collected by a
+    # wildcard key): under a case-insensitive key type every letter case of such a key line must fare alike
+    n_o, n_ot = (300, 20) if ctx.thorough() else (30, 10)
+    over = cfgstream.gen_cases(ctx, n_o, n_ot, nfaults=(0, 0, 0, 1), systematic=False, schema_hook=cfggen.add_keytype_override)
     A, B = [], []
-    for c in base:
+    for c in base + over:
         items = add_define_items(rng, copy.deepcopy(c.meta["items"]))
+        classes = []
+        # ... and arbitrary keys ('+') named like a section of the same container: key lines before / between / after it
+        if not c.faults or rng.random() < 0.3:
+            if cfggen.add_namesake_keys(rng, c.elab, items, 0.6):
+                classes.append("namesake-key")
+        odd = odd_spelled_keys(c.elab, items)
+        if odd:
+            classes.append("keytype-override")
         a = cfgstream.Case()
+        a.meta = {"classes": classes, "odd": odd, "items": items}
         a.sd, a.real, a.elab, a.hnames = c.sd, c.real, c.elab, c.hnames
         a.lines = canon_lines(items)
         b = cfgstream.Case()
@@ -155,10 +256,13 @@ def run(ctx):
         B.append(b)
     cfgstream.evaluate(ctx, A)
     cfgstream.evaluate(ctx, B)
+    shrunk = set()
     for a, b in zip(A, B):
         if len(a.lines) >= 2:
             ctx.nontriv((id(a.sd), tuple(a.lines), tuple(b.lines)))
         ctx.count("canonical:" + a.out[0])
+        for cl in a.meta["classes"]:
+            ctx.count("%s:canonical-%s:rewritten-%s" % (cl, a.out[0], b.out[0]))
         for x in (a, b):
             if x.model is not None and x.model[0] != "bad" and x.out[0] != "internal":
                 if x.model[0] != x.out[0] or (x.out[0] == "ok" and not cfgrun.match_val(x.model[1], x.cfg)):
@@ -169,9 +273,19 @@ def run(ctx):
             continue
         same = a.out[0] == b.out[0] and (a.out[0] != "ok" or cfgrun.describe(a.cfg) == cfgrun.describe(b.cfg))
         if not same:
-            ctx.violate("layout rewrite changed the outcome: %s vs %s" % (a.out[:2], b.out[:2]),
-                        dict(a.replay(), rewritten=b.lines, canonical_outcome=a.out, rewritten_outcome=b.out),
-                        signature="C15:%s-vs-%s" % (a.out[0], b.out[0]))
+            sig = "C15:%s-vs-%s" % (a.out[0], b.out[0])
+            rep = dict(a.replay(), rewritten=b.lines, canonical_outcome=a.out, rewritten_outcome=b.out,
+                       input_classes=a.meta["classes"], keys_registered_in_another_spelling=a.meta["odd"],
+                       canonical_value=cfgrun.describe(a.cfg) if a.out[0] == "ok" else None,
+                       rewritten_value=cfgrun.describe(b.cfg) if b.out[0] == "ok" else None)
+            if sig not in shrunk and len(shrunk) < 4:
+                # the first pair of every outcome class is reduced to a small item tree that still shows a difference
+                shrunk.add(sig)
+                small = shrink_pair(a.real, a.elab, a.meta["items"], a.overrides)
+                if small is not None:
+                    rep["shrunk"] = small
+                    ctx.count("violations-shrunk")
+            ctx.violate("layout rewrite changed the outcome: %s vs %s" % (a.out[:2], b.out[:2]), rep, signature=sig)
     # shipped components (real vs real only)
     import ZConfig
     for xml, items in COMPONENT_TEXTS:
